@@ -88,74 +88,68 @@ def run():
 
     # ------------------------------------------------------------------ hashers
     def hashers():
-        # file_hash (generic over the hash function: one MIR body)
-        fh = prog.find(r"(^|::)file_hash$")
-        eng = neweng()
-        ps = eng.run(fh)
+        # The helpers of hasher.rs are inlined down to the leaves (open, stream_hash, Transform::run, HashCache::get/put/key,
+        # FileMetadata::new, logging), so the obligations do not depend on how the hashers are factored into functions.
+        LEAF = r"(^|::)(open|stream_hash|evict_page_cache_if_low_mem|format_output_stream)$|HashCache::|FileMetadata::new$|Transform::run$|::warn$"
 
-        def p_file_hash(p):
-            op, sh = called(p, r"(^|::)open$"), called(p, r"(^|::)stream_hash$")
-            if p.status == "panic":
-                return z3.Not(ok_all(op + sh)) == z3.BoolVal(False)
-            r = p.result
-            if not isinstance(r, EnumV):
-                return z3.BoolVal(False)
-            if r.variant == "Ok":
-                good = len(op) == 1 and len(sh) == 1 and derives(r.fields.get(0), sh[0], "Ok")
-                return z3.And(z3.BoolVal(good), ok_all(op + sh))
-            return z3.Not(ok_all(op + sh))
-        rep.add(oblig.check_paths(eng, ps, "file_hash: Ok(hash of the stream) iff open and stream_hash succeeded; an error is returned, never a hash",
-                                  p_file_hash, fn(), key="file_hash:errors", allow=AB))
+        def inl(c, t):
+            return oblig.defined_in(prog, t, "hasher.rs") and not re.search(LEAF, c) and not re.search(LEAF, t.name)
+
+        def leaves(p):
+            return dict(get=called(p, r"HashCache::get$"), put=called(p, r"HashCache::put$"), op=called(p, r"(^|::)open$"),
+                        sh=called(p, r"(^|::)stream_hash$"), rn=called(p, r"Transform::run$"), wt=called(p, r"Child::wait$|(^|::)wait$"),
+                        su=called(p, r"ExitStatus::success$"))
+
+        def from_cache(pl, L):
+            return bool(L["get"]) and isinstance(pl, Lazy) and isinstance(L["get"][0].ret, Lazy) and pl.name.startswith(L["get"][0].ret.name + "@Ok")
 
         hf = prog.method("FileHasher", "hash_file")
-        eng = neweng()
+        eng = neweng(inline=inl)
         ps = eng.run(hf)
 
         def p_hash_file(p):
-            lh, fhs, sto = called(p, r"FileHasher.*::load_hash$|::load_hash$"), called(p, r"(^|::)file_hash$"), called(p, r"::store_hash$")
-            if p.status == "panic":
-                return ok_all(fhs)
-            r = p.result
-            if not isinstance(r, EnumV) or len(lh) != 1:
-                return z3.BoolVal(False)
-            hit = disc(lh[0]) == 1
-            if r.variant == "Ok":
-                pl = r.fields.get(0)
-                if derives(pl, lh[0], "Some"):
-                    return z3.And(hit, z3.BoolVal(not sto and not fhs))
-                good = len(fhs) == 1 and derives(pl, fhs[0], "Ok") and len(sto) == 1
-                return z3.And(z3.BoolVal(good), ok_all(fhs), z3.Not(hit))
-            return z3.And(z3.BoolVal(len(fhs) == 1 and not sto), z3.Not(ok_all(fhs)))
-        rep.add(oblig.check_paths(eng, ps, "hash_file: Ok iff cache hit or file_hash succeeded; nothing stored in the cache when hashing failed",
-                                  p_hash_file, fn(), key="hash_file:errors", allow=AB))
-
-        ht = prog.method("FileHasher", "hash_transformed")
-        eng = neweng()
-        ps = eng.run(ht)
-
-        def p_hash_tr(p):
-            lh, rn, sh = called(p, r"::load_hash$"), called(p, r"Transform::run$"), called(p, r"(^|::)stream_hash$")
-            wt, su, sto = called(p, r"Child::wait$|::wait$"), called(p, r"ExitStatus::success$"), called(p, r"::store_hash$")
-            io = rn + sh + wt
+            L = leaves(p)
+            io = L["op"] + L["sh"]
             if p.status in ("panic", "diverge"):
-                # assert_eq!/assert! on the arguments, a poisoned mutex, a missing stderr thread: not caused by an I/O error
                 return ok_all(io)
             r = p.result
             if not isinstance(r, EnumV):
                 return z3.BoolVal(False)
             if r.variant == "Ok":
                 pl = r.fields.get(0)
-                if lh and derives(pl, lh[0], "Some"):
-                    return z3.And(disc(lh[0]) == 1, z3.BoolVal(not sto and not rn))
-                good = len(rn) == 1 and len(sh) == 1 and len(wt) == 1 and len(su) == 1 and derives(pl, sh[0], "Ok") and len(sto) == 1
-                if not good or not isinstance(su[0].ret, Bool):
-                    return z3.BoolVal(False)
-                return z3.And(ok_all(io), su[0].ret.t)
-            bad = z3.Not(ok_all(io))
-            if su and isinstance(su[0].ret, Bool):
-                bad = z3.Or(bad, z3.Not(su[0].ret.t))
-            return z3.And(bad, z3.BoolVal(not sto))
-        rep.add(oblig.check_paths(eng, ps, "hash_transformed: Ok iff cache hit or run, stream_hash, wait succeeded and the child exited with success; nothing cached otherwise",
+                if from_cache(pl, L):
+                    return z3.And(disc(L["get"][0]) == 0, z3.BoolVal(not L["put"] and not io))
+                good = len(L["op"]) == 1 and len(L["sh"]) == 1 and derives(pl, L["sh"][0], "Ok")
+                return z3.And(z3.BoolVal(good), ok_all(io))
+            return z3.And(z3.BoolVal(not L["put"]), z3.Not(ok_all(io)))
+        rep.add(oblig.check_paths(eng, ps, "hash_file: Ok iff cache hit or open+stream_hash succeeded (the hash is the one computed); nothing is put into the cache when hashing failed",
+                                  p_hash_file, fn(), key="hash_file:errors", allow=AB))
+
+        ht = prog.method("FileHasher", "hash_transformed")
+        eng = neweng(inline=inl)
+        ps = eng.run(ht)
+
+        def p_hash_tr(p):
+            L = leaves(p)
+            io = L["rn"] + L["sh"] + L["wt"]
+            succ = [e.ret.t for e in L["su"] if isinstance(e.ret, Bool)]
+            if p.status in ("panic", "diverge"):
+                # assert_eq!/assert! on the arguments, a poisoned mutex, a missing stderr thread: not caused by an I/O error
+                return ok_all(io)
+            r = p.result
+            if not isinstance(r, EnumV):
+                return z3.BoolVal(False)
+            all_good = z3.And(ok_all(io), *succ) if succ else ok_all(io)
+            # a cache entry may be written only when every step (run, stream, wait, exit status) succeeded
+            put_ok = z3.Implies(z3.BoolVal(bool(L["put"])), z3.And(all_good, z3.BoolVal(len(L["wt"]) == 1 and len(L["su"]) == 1)))
+            if r.variant == "Ok":
+                pl = r.fields.get(0)
+                if from_cache(pl, L):
+                    return z3.And(disc(L["get"][0]) == 0, z3.BoolVal(not L["put"] and not L["rn"]))
+                good = len(L["rn"]) == 1 and len(L["sh"]) == 1 and len(L["wt"]) == 1 and len(L["su"]) == 1 and derives(pl, L["sh"][0], "Ok")
+                return z3.And(z3.BoolVal(good), all_good, put_ok)
+            return z3.And(z3.Not(all_good), put_ok, z3.BoolVal(not L["put"]))
+        rep.add(oblig.check_paths(eng, ps, "hash_transformed: Ok iff cache hit or run, stream_hash, wait succeeded and the child exited with success; nothing is put into the cache otherwise",
                                   p_hash_tr, fn(), key="hash_transformed:errors", allow=AB))
 
         for meth, inner in (("hash_file_or_log_err", r"FileHasher::hash_file$"), ("hash_transformed_or_log_err", r"FileHasher::hash_transformed$")):
